@@ -1,4 +1,5 @@
 import Driver.KeyOps
+import Driver.SerOps
 /-
   Line-protocol driver: one operation per input line, one canonical result line per operation.
   Imports Model only (core Lean), so it links as a `lean_exe`.
@@ -12,12 +13,15 @@ def step (st : St) (line : String) : St × String :=
   let w := words line
   match keyOps w with
   | some r => (st, r)
+  | none =>
+  match serOps w with
+  | some r => (st, r)
   | none => (st, "bad-op")
 
 partial def loop (h : IO.FS.Stream) (out : IO.FS.Stream) (st : St) : IO Unit := do
   let line ← h.getLine
   if line.isEmpty then return ()
-  let l := (line.dropRightWhile (fun c => c == '\n' || c == '\r'))
+  let l := line.trimAsciiEnd.toString
   let (st', o) := step st l
   out.putStrLn o
   out.flush
